@@ -65,6 +65,7 @@ func Parse(filename string, data []byte) (*File, error) {
 		f.Meta[k] = v
 	}
 
+	seen := make(map[string]bool) // names as recorded in the file
 	for i := uint32(0); i < numHash; i++ {
 		headOff := hdrLen + hashOff + i*4
 		head := m.load32(headOff)
@@ -74,16 +75,20 @@ func Parse(filename string, data []byte) (*File, error) {
 			if !ok {
 				return corrupt()
 			}
-			if _, ok := f.Count[string(ename)]; ok {
+			if seen[string(ename)] {
+				// A second record with the same name is a duplicate or a
+				// cycle in the chain.
 				return corrupt()
 			}
+			seen[string(ename)] = true
+			// The map is keyed by the decoded name. Distinct stack counter
+			// names can decode to the same name; they count the same stack.
 			ctrName := DecodeStack(string(ename))
-			if _, ok := f.Count[ctrName]; ok {
-				// The map is keyed by the decoded name: a second record with
-				// the same decoded name is a duplicate or a cycle in the chain.
-				return corrupt()
+			sum := f.Count[ctrName] + v.Load()
+			if sum < f.Count[ctrName] {
+				sum = ^uint64(0)
 			}
-			f.Count[ctrName] = v.Load()
+			f.Count[ctrName] = sum
 			off = next
 		}
 	}
